@@ -14,7 +14,7 @@ class StrStream(FM.FormulaStream):
     name = "string"
     check_fn = "check_str"
     n_quick = 1300
-    n_thorough = 8000
+    n_thorough = 18000
     p_missing = (0.0, 0.0, 0.1)
 
     def gen(self, rng, tier):
@@ -77,7 +77,7 @@ class HoStream(FM.FormulaStream):
     name = "operators"
     check_fn = "check_ho"
     n_quick = 900
-    n_thorough = 8000
+    n_thorough = 18000
     p_missing = (0.0, 0.0, 0.1)
     p_src_nz = 0.1
 
